@@ -49,6 +49,14 @@ ScopesSmall ==
 
 \* one CASE line per (program, module): the reference answer
 TableSeq(t) == LET s == CHOOSE f \in [1..Cardinality(t) -> t] : \A a, b \in 1..Cardinality(t) : a # b => f[a] # f[b] IN s
+\* modules loaded for the main program (imports are not transitive in this family)
+LoadedMods == {prog.main} \cup {u.s : u \in {prog.mods[prog.main][i] : i \in {j \in 1..Len(prog.mods[prog.main]) : prog.mods[prog.main][j].k = "use"}}}
+
+\* find-references: the uses, in any loaded module, whose binder is the given one; and its inverse
+RefsOf(b) == UNION {{[m |-> m2, use |-> r.use] : r \in {x \in RefTable(prog, m2) : x.b = b}} : m2 \in LoadedMods}
+Inverse == \A m2 \in LoadedMods : \A r \in RefTable(prog, m2) :
+             r.b.kind \notin {"none", "internal"} => [m |-> m2, use |-> r.use] \in RefsOf(r.b)
+
 PrintCase ==
   (phase = "stdlib") =>
     LET r == RefResolve(prog, mod) IN
